@@ -11,8 +11,8 @@ using namespace sim;
 
 namespace {
 
-enum OpKind {SET_ORIGIN = 0, SET_END, CAST0, CAST1, CAST2, TRAVERSE, NEXT_BURST, SWITCH_GRID};
-const char * kOpName[] = {"setOriginPoint", "setEndPoint", "cast()", "cast(end)", "cast(origin,end)", "setEndPoint+next()*", "next() burst", "setGridIndexMapping(other grid)"};
+enum OpKind {SET_ORIGIN = 0, SET_END, CAST0, CAST1, CAST2, TRAVERSE, NEXT_BURST, SWITCH_GRID, CAST_ALIAS, REASSIGN_GRID};
+const char * kOpName[] = {"setOriginPoint", "setEndPoint", "cast()", "cast(end)", "cast(origin,end)", "setEndPoint+next()*", "next() burst", "setGridIndexMapping(other grid)", "cast with the caster's own point references", "grid object reassigned in place"};
 
 struct Op {int kind = 0; double o[3] = {0, 0, 0}; double e[3] = {0, 0, 0}; int count = 0;};
 
@@ -214,6 +214,32 @@ Outcome runCaster(const Plan & p, Ctx & c)
           Outcome oc = checkRay(r, curO, e, kOpName[op.kind]); if (!oc.ok) {return oc;}
           stateConsumed = true; break;
         }
+      case CAST_ALIAS: {
+          // arguments that are references to the caster's own stored points (valid calls; the result depends on the
+          // VALUES of origin and end at the time of the call)
+          if (!originSet) {rc->setOriginPoint(o); curO = o; originSet = true;}
+          rc->setEndPoint(e);
+          Pt endVal = rc->getEndPoint(), orgVal = rc->getOriginPoint();
+          Ray r; Pt useO = orgVal, useE = endVal;
+          switch (op.count % 4) {
+            case 0: r = rc->cast(o, rc->getEndPoint()); useO = o; break;                     // new origin, own end point
+            case 1: r = rc->cast(rc->getOriginPoint(), e); useE = e; break;                 // own origin, new end
+            case 2: r = rc->cast(rc->getEndPoint(), rc->getOriginPoint()); useO = endVal; useE = orgVal; break;   // swapped, both own
+            default: r = rc->cast(rc->getEndPoint()); useE = endVal; break;                 // own end point again
+          }
+          curO = useO; SIM_PROBE("cast_with_references_to_the_casters_own_points");
+          c.note(fmt("#%zu cast with own point references (form %d) -> %zu cells", no, op.count % 4, r.size()));
+          Outcome oc = checkRay(r, useO, useE, kOpName[op.kind]); if (!oc.ok) {return oc;}
+          stateConsumed = true; break;
+        }
+      case REASSIGN_GRID: {
+          // the grid object the caster points at is given a new value in place (same address, other geometry)
+          onSecond = !onSecond;
+          Map & target = *cur;
+          target = onSecond ? Map(romea::core::Interval<S, DIM>(lo, up), (S)(p.res * 1.75 <= 1.0 ? p.res * 1.75 : p.res * 0.8)) : Map(romea::core::Interval<S, DIM>(lo, up), (S)p.res);
+          adoptGrid(); originSet = false; stateConsumed = true; SIM_PROBE("grid_object_reassigned_in_place");
+          c.note(fmt("#%zu grid object reassigned in place", no)); break;
+        }
       case SWITCH_GRID: {
           // the grid is part of what a cast depends on: after the switch everything must be as with a fresh caster on
           // the new grid (the origin has to be given again: its cell indexes belong to the old grid)
@@ -312,6 +338,8 @@ struct PropC14
         static const int kinds[] = {SET_ORIGIN, SET_END, CAST1, CAST1, CAST2, CAST2, CAST2, TRAVERSE};
         op.kind = r.pick(kinds);
         if (r.chance(0.04)) {op.kind = SWITCH_GRID;}
+        if (r.chance(0.03)) {op.kind = REASSIGN_GRID;}
+        if (r.chance(0.08)) {op.kind = CAST_ALIAS; op.count = (int)r.below(4);}
       }
       p.ops.push_back(op);
       if (op.kind == SET_END && r.chance(0.6)) {Op c0 = op; c0.kind = CAST0; p.ops.push_back(c0);}
@@ -339,7 +367,7 @@ struct PropC14
     for (auto & o : p.ops) {
       Json e = Json::object(); e.set("op", kOpName[o.kind]).set("kind", o.kind);
       Json a = Json::array(), b = Json::array(); for (int k = 0; k < p.dim; ++k) {a.push(o.o[k]); b.push(o.e[k]);}
-      e.set("origin", a).set("end", b); if (o.kind == NEXT_BURST) {e.set("count", o.count);}
+      e.set("origin", a).set("end", b); if (o.kind == NEXT_BURST || o.kind == CAST_ALIAS) {e.set("count", o.count);}
       ops.push(e);
     }
     j.set("ops", ops);
@@ -391,7 +419,7 @@ struct PropC14
   {
     bool consumed = false;
     for (auto & o : p.ops) {
-      if ((o.kind == CAST1 || o.kind == CAST2 || o.kind == TRAVERSE) && consumed) {return true;}
+      if ((o.kind == CAST1 || o.kind == CAST2 || o.kind == TRAVERSE || o.kind == CAST_ALIAS) && consumed) {return true;}
       if (o.kind >= CAST0) {consumed = true;}
     }
     return false;
@@ -399,7 +427,7 @@ struct PropC14
   std::string signature(const Plan & p, const Outcome & o) const
   {
     std::string s = o.cls + "|" + (p.isFloat ? "float" : "double") + std::to_string(p.dim) + "|";
-    for (auto & op : p.ops) {s += "OE012TNG"[op.kind];}
+    for (auto & op : p.ops) {s += "OE012TNGAR"[op.kind];}
     return s;
   }
   std::vector<uint64_t> sampleIndexes() const
@@ -413,7 +441,8 @@ struct PropC14
     return {"end_point_on_or_near_a_cell_border", "coincident_origin_and_end", "axis_aligned_ray_zero_step_axis", "origin_and_end_in_same_cell",
       "exact_diagonal_ray", "ray_longer_than_1000_cells", "cast_after_traversal_state_was_consumed",
       "ray_ends_in_a_neighbour_of_the_end_index_cell_border_case",
-      "caster_default_constructed_then_given_the_grid", "grid_built_from_maximal_range", "three_call_form_setOrigin_setEnd_cast", "caster_switched_to_another_grid"};
+      "caster_default_constructed_then_given_the_grid", "grid_built_from_maximal_range", "three_call_form_setOrigin_setEnd_cast", "caster_switched_to_another_grid",
+      "cast_with_references_to_the_casters_own_points", "grid_object_reassigned_in_place"};
   }
   Json describe() const
   {
